@@ -78,6 +78,11 @@ pub trait Property: Sync {
     fn extra(&self, _tier: Tier, _seed: u64) -> Vec<(String, CaseReport)> {
         Vec::new()
     }
+    /// coverage-guided tier: decodes a libFuzzer input into a case of the same space the strategy generates
+    /// (None: the input is too short / this property has no byte-driven generator)
+    fn fuzz_case(&self, _data: &[u8]) -> Option<Self::Case> {
+        None
+    }
     fn technique(&self) -> &'static str {
         "property-based testing (proptest): generated cases against an explicit oracle"
     }
@@ -315,6 +320,9 @@ pub fn run_property<P: Property>(p: &P, opts: &RunOptions) -> i32 {
                     println!("replay violation: rule={} signature={} detail={}", v.rule, v.signature, v.detail);
                 }
                 println!("labels: {:?}", r.labels);
+                if let Some(s) = &r.sample {
+                    println!("sample: {}", s);
+                }
                 if r.violations.is_empty() {
                     println!("replay: property held on this case");
                     0
